@@ -285,8 +285,12 @@ psRes_t psX509ParseCertData(psPool_t *pool,
                 certData->len,
                 &current,
                 flags);
-        if (err < 0 && !(flags & CERT_ALLOW_BUNDLE_PARTIAL_PARSE))
+        if (err < 0 && (current == NULL
+                || !(flags & CERT_ALLOW_BUNDLE_PARTIAL_PARSE)))
         {
+            /* Also when partial parses are allowed: without a certificate
+               structure (its allocation failed) there is nothing to
+               append to the list. */
             psX509FreeCert(current);
             psFreeList(certDatas, pool);
             return err;
